@@ -252,7 +252,9 @@ func (og *OverlapGenerator) generateParagraphOverlap(text string) (string, int) 
 	return strings.TrimSpace(overlap.String()), sentenceCount
 }
 
-// truncateOverlap reduces overlap to fit within MaxOverlap while preserving sentences
+// truncateOverlap reduces overlap to fit within MaxOverlap while preserving sentences.
+// The overlap is the end of the previous chunk, so it is shortened from the
+// front: the trailing sentences (or, failing that, the trailing words) are kept.
 func (og *OverlapGenerator) truncateOverlap(overlap string) string {
 	if len(overlap) <= og.config.MaxOverlap {
 		return overlap
@@ -262,33 +264,36 @@ func (og *OverlapGenerator) truncateOverlap(overlap string) string {
 	sentences := splitIntoSentencesWithPositions(overlap)
 	if len(sentences) == 0 {
 		// No sentences, truncate at word boundary
-		return og.generateCharacterOverlap(overlap[:og.config.MaxOverlap])
+		return og.characterTail(overlap, og.config.MaxOverlap)
 	}
 
-	// Find how many sentences fit within MaxOverlap
-	var result strings.Builder
-	for _, s := range sentences {
-		test := result.String()
-		if result.Len() > 0 {
-			test += " "
+	// Find how many trailing sentences fit within MaxOverlap
+	first := len(sentences)
+	total := 0
+	for i := len(sentences) - 1; i >= 0; i-- {
+		added := len(sentences[i].text)
+		if first < len(sentences) {
+			added++ // separating space
 		}
-		test += s.text
-
-		if len(test) > og.config.MaxOverlap {
+		if total+added > og.config.MaxOverlap {
 			break
 		}
+		total += added
+		first = i
+	}
 
+	if first == len(sentences) {
+		// Last sentence exceeds max, truncate it
+		return og.characterTail(overlap, og.config.MaxOverlap)
+	}
+
+	var result strings.Builder
+	for i := first; i < len(sentences); i++ {
 		if result.Len() > 0 {
 			result.WriteString(" ")
 		}
-		result.WriteString(s.text)
+		result.WriteString(sentences[i].text)
 	}
-
-	if result.Len() == 0 {
-		// First sentence exceeds max, truncate it
-		return og.generateCharacterOverlap(overlap[:og.config.MaxOverlap])
-	}
-
 	return result.String()
 }
 
